@@ -58,7 +58,7 @@ def st_case(draw, tier="quick"):
                 name = f"t{n_t}"
                 n_t += 1
                 values[name] = draw(st.integers(0, 255))
-                d = draw(st.sampled_from([None, 0, 1, 2, 3, 4, 5]))  # None = the `d` argument is left out
+                d = draw(st.sampled_from([None, 0, 1, 2, 3, 4, 5, 7, 8, 9, 16, 200, 255]))  # None = the `d` argument is left out
                 qid = 1000 + n_t
                 second = []
                 if draw(st.booleans()):
@@ -398,7 +398,7 @@ def st_repeat(draw):
     """one block of operations (rotations with template operands on a qubit that stays alive, optionally a measurement into a
     register) is written, compiled, filled and committed several times on one connection, each time with other values"""
     n_rot = draw(st.integers(1, 3))
-    block = [[draw(st.sampled_from("XYZ")), draw(st.sampled_from(["t", "t", "u"])), draw(st.sampled_from([None, 0, 1, 2, 3, 4]))] for _ in range(n_rot)]
+    block = [[draw(st.sampled_from("XYZ")), draw(st.sampled_from(["t", "t", "u"])), draw(st.sampled_from([None, 0, 1, 2, 3, 4, 8, 31, 255]))] for _ in range(n_rot)]
     meas_reg = draw(st.integers(0, 2)) == 0
     n_rounds = draw(st.integers(17, 20)) if meas_reg and draw(st.booleans()) else draw(st.integers(2, 4))
     rounds = [{"t": draw(st.integers(0, 31)), "u": draw(st.integers(0, 31))} for _ in range(n_rounds)]
